@@ -86,6 +86,19 @@ var theEngine *Engine
 
 var onceDone = map[*value]bool{}
 
+var syncMaps = map[*value]*omap{}
+
+func syncMapOf(recv value) *omap {
+	k := recv.(*value)
+	if m, ok := syncMaps[k]; ok {
+		return m
+	}
+	m := makeMap(tEmptyIface, 0).(*omap)
+	syncMaps[k] = m
+	journalUndo(func() { delete(syncMaps, k) })
+	return m
+}
+
 // nativeObj wraps an opaque host value (regexp, file, ...).
 type nativeObj struct{ v interface{} }
 
@@ -331,6 +344,25 @@ func init() {
 		"encoding/json.MarshalIndent": func(fr *frame, a []value) value { panic("unsupported: encoding/json (reflection)") },
 		"(*sync.Mutex).Lock":          func(fr *frame, a []value) value { theEngine.noteMutex(fr, "lock", a[0]); return nil },
 		"(*sync.Mutex).Unlock":        func(fr *frame, a []value) value { theEngine.noteMutex(fr, "unlock", a[0]); return nil },
+		// sync.Map: one ordered map per receiver (the real implementation is lock-free code over
+		// atomic pointers; the sequential engine only needs its map semantics)
+		"(*sync.Map).Load": func(fr *frame, a []value) value {
+			v, ok := syncMapOf(a[0]).lookup(a[1])
+			if !ok {
+				return tuple{iface{}, false}
+			}
+			return tuple{v, true}
+		},
+		"(*sync.Map).Store": func(fr *frame, a []value) value { syncMapOf(a[0]).insert(a[1], a[2]); return nil },
+		"(*sync.Map).LoadOrStore": func(fr *frame, a []value) value {
+			m := syncMapOf(a[0])
+			if v, ok := m.lookup(a[1]); ok {
+				return tuple{v, true}
+			}
+			m.insert(a[1], a[2])
+			return tuple{a[2], false}
+		},
+		"(*sync.Map).Delete": func(fr *frame, a []value) value { syncMapOf(a[0]).delete(a[1]); return nil },
 		"(*sync.Once).Do": func(fr *frame, a []value) value {
 			k := a[0].(*value)
 			if onceDone[k] {
